@@ -136,8 +136,13 @@ func (v *Vue) evalSlot(ctx VueContext, node *html.Node, slotScope *SlotScope) ([
 	if inheritedSlotScopeData, ok := ctx.stack.EnvMap()["__slotScope__"]; ok {
 		if inheritedSlotScope, ok := inheritedSlotScopeData.(*SlotScope); ok {
 			if slotContent := inheritedSlotScope.GetSlot(slotName); slotContent != nil {
-				// Use the inherited slot content directly (already parsed as DOM nodes)
-				return slotContent.Nodes, nil
+				// Evaluate a private copy of the inherited content, like content
+				// supplied on an include tag
+				copies := make([]*html.Node, 0, len(slotContent.Nodes))
+				for _, n := range slotContent.Nodes {
+					copies = append(copies, helpers.DeepCloneNode(n))
+				}
+				return v.evaluate(ctx, copies, 0)
 			}
 		}
 	}
